@@ -427,12 +427,23 @@ func (f *Flooder) floodAdvertisementEncrypted(
 		fwdDisplayName = ""
 	}
 
+	// Every hop adds one to the metric, so that the metric a receiver records
+	// equals its hop count to the origin (as it does for full-table replays,
+	// which send the stored, already incremented metric).
+	fwdRoutes := make([]protocol.Route, len(routes))
+	for i, r := range routes {
+		if r.Metric < ^uint16(0) {
+			r.Metric++
+		}
+		fwdRoutes[i] = r
+	}
+
 	// Build the advertise payload with extended path
 	adv := &protocol.RouteAdvertise{
 		OriginAgent:       originAgent,
 		OriginDisplayName: fwdDisplayName,
 		Sequence:          sequence,
-		Routes:            routes,
+		Routes:            fwdRoutes,
 		EncPath:           fwdEncPath,
 		SeenBy:            seenBy,
 	}
